@@ -2074,6 +2074,8 @@ handshake_switch_codec(int dns_fd, int bits)
 		read = handshake_waitdns(dns_fd, in, sizeof(in) - 1, 's', 'S', i+1);
 
 		if (read > 0) {
+			/* compare only what this reply brought */
+			in[read] = 0;
 			if (strncmp("BADLEN", in, 6) == 0) {
 				fprintf(stderr, "Server got bad message length. ");
 				goto codec_revert;
@@ -2138,6 +2140,8 @@ handshake_switch_downenc(int dns_fd)
 		read = handshake_waitdns(dns_fd, in, sizeof(in) - 1, 'o', 'O', i+1);
 
 		if (read > 0) {
+			/* compare only what this reply brought */
+			in[read] = 0;
 			if (strncmp("BADLEN", in, 6) == 0) {
 				fprintf(stderr, "Server got bad message length. ");
 				goto codec_revert;
@@ -2176,9 +2180,11 @@ handshake_try_lazy(int dns_fd)
 
 		send_lazy_switch(dns_fd);
 
-		read = handshake_waitdns(dns_fd, in, sizeof(in), 'o', 'O', i+1);
+		read = handshake_waitdns(dns_fd, in, sizeof(in) - 1, 'o', 'O', i+1);
 
 		if (read > 0) {
+			/* compare only what this reply brought */
+			in[read] = 0;
 			if (strncmp("BADLEN", in, 6) == 0) {
 				fprintf(stderr, "Server got bad message length. ");
 				goto codec_revert;
@@ -2239,7 +2245,7 @@ static int
 fragsize_check(char *in, int read, int proposed_fragsize, int *max_fragsize)
 /* Returns: 0: keep checking, 1: break loop (either okay or definitely wrong) */
 {
-	int acked_fragsize = ((in[0] & 0xff) << 8) | (in[1] & 0xff);
+	int acked_fragsize;
 	int okay;
 	int i;
 	unsigned int v;
@@ -2249,6 +2255,11 @@ fragsize_check(char *in, int read, int proposed_fragsize, int *max_fragsize)
 		fflush(stderr);
 		return 0;		/* maybe temporary error */
 	}
+
+	if (read < 2)
+		return 0;	/* too short to carry an ack */
+
+	acked_fragsize = ((in[0] & 0xff) << 8) | (in[1] & 0xff);
 
 	if (acked_fragsize != proposed_fragsize) {
 		/*
@@ -2271,7 +2282,7 @@ fragsize_check(char *in, int read, int proposed_fragsize, int *max_fragsize)
 	/* test: */
 	/* in[123] = 123; */
 
-	if ((in[2] & 0xff) != 107) {
+	if (read > 2 && (in[2] & 0xff) != 107) {
 		fprintf(stderr, "\n");
 		warnx("corruption at byte 2, this won't work. Try -O Base32, or other -T options.");
 		*max_fragsize = -1;
@@ -2394,10 +2405,12 @@ handshake_set_fragsize(int dns_fd, int fragsize)
 
 		send_set_downstream_fragsize(dns_fd, fragsize);
 
-		read = handshake_waitdns(dns_fd, in, sizeof(in), 'n', 'N', i+1);
+		read = handshake_waitdns(dns_fd, in, sizeof(in) - 1, 'n', 'N', i+1);
 
 		if (read > 0) {
 
+			/* compare only what this reply brought */
+			in[read] = 0;
 			if (strncmp("BADFRAG", in, 7) == 0) {
 				fprintf(stderr, "Server rejected fragsize. Keeping default.");
 				return;
